@@ -1,17 +1,18 @@
-(* Proofs/LoadedTimes.v — D13: whatever the schedule files hold, time never goes backwards along a loaded trip;
-   what that gives the itinerary rebuild loop (Termination.v); and what is still missing for "a server that loaded
-   arbitrary files never hangs": the walking times of the stop files (a vm_compute counterexample, section 5).
+(* Proofs/LoadedTimes.v — D13 / D15: whatever the cache files hold, time never goes backwards along a loaded trip and
+   no loaded footpath row has a negative walking time; hence the itinerary rebuild loop (Termination.v) terminates on
+   every state a server can reach by start-up and /updateCache.
 
    1. connections of a stop-time list that passes conn_times_ok (LoaderProofs.v): 0 <= dep <= arr for every
       connection, arr a <= dep b for a before b (by sequence number and by position in the list)
    2. every trip the loader accepts / load_schedules returns has such connections (in ANY dataset: mk_conns reads the
       stop times of the trip and the stops of whatever path the trip resolves to)
    3. Loader2: load_all, and every state /updateCache can reach from it with any files, keeps
-        loaded_inv m  =  trip ids strictly ascending, stop times of every trip in order, footpath tables over mm_nodes
-      hence times_monotone and rfp_nodes_known of Termination.v hold for data_of m
-   4. the rebuild loop terminates on such a state as soon as the walking times read by the scan are >= 0
-   5. the walking times are NOT validated by the loader (nodes_cache_fetcher.cpp:154-162 copies the Int16 travel time
-      of the file; Loader.node_rows copies fm_time): one negative value makes the labels cyclic and the answer Hang. *)
+        loaded_inv m  =  trip ids strictly ascending, stop times of every trip in order, footpath tables over mm_nodes,
+                         every row of both footpath tables with a walking time >= 0 (D15)
+      hence times_monotone, rfp_nodes_known and walks_nonneg of Termination.v hold for data_of m
+   4. the rebuild loop terminates on such a state (only 0 <= q_minw p is asked of the request)
+   5. regression for D15: the stop file with one negative walking time that made the labels cyclic (the request was
+      never answered, model and real server) now loads with that row skipped and the request is answered. *)
 From Coq Require Import List ZArith Bool Arith Lia.
 From TrV Require Import Spec Optimal Examples Proofs.SortFilter Proofs.RevInv Proofs.Termination.
 From TrV Require Import Loader Loader2 Proofs.LoaderProofs Proofs.Loader2Proofs.
@@ -201,16 +202,32 @@ Proof. intros f t Hin. apply trip_conns_in_order. exact (load_all_times_in_order
 Record loaded_inv (m : mem) : Prop := {
   li_ids : ssorted (map t_id (mm_trips m));
   li_times : trips_in_order m;
-  li_tables : tables_ok (mm_nodes m) (mm_fp m) (mm_rfp m) }.
+  li_tables : tables_ok (mm_nodes m) (mm_fp m) (mm_rfp m);
+  li_walks : tables_nonneg (mm_fp m) (mm_rfp m) }.
 
-Lemma mem_ok_loaded_inv : forall m, mem_ok m -> trips_in_order m -> loaded_inv m.
+Lemma mem_ok_loaded_inv : forall m, mem_ok m -> trips_in_order m -> tables_nonneg (mm_fp m) (mm_rfp m) -> loaded_inv m.
 Proof.
-  intros m Hok Ht. constructor; [exact (ok_trips_sorted m Hok)|exact Ht|exact (ok_tables m Hok)].
+  intros m Hok Ht Hw. constructor; [exact (ok_trips_sorted m Hok)|exact Ht|exact (ok_tables m Hok)|exact Hw].
+Qed.
+
+(* D15: for ANY file states, no row of the forward or reverse footpath tables has a negative walking time *)
+Lemma full_mem_walks_nonneg : forall f, tables_nonneg (mm_fp (full_mem f)) (mm_rfp (full_mem f)).
+Proof.
+  intros f. unfold full_mem. cbn [mm_fp mm_rfp]. unfold C_nd.
+  pose proof (load_nodes2_nonneg (f_nodes f) (Loader2.f_stop f)) as Hn.
+  destruct (load_nodes2 (f_nodes f) (Loader2.f_stop f)) as [[[ids fp] rfp] r]. exact Hn.
+Qed.
+
+Theorem load_all_walks_nonneg : forall f,
+  tables_nonneg (mm_fp (fst (load_all f))) (mm_rfp (fst (load_all f))).
+Proof.
+  intros f. unfold load_all. cbn [fst]. rewrite load_steps_eq. cbn [fst].
+  unfold cut. cbn [mm_fp mm_rfp]. apply full_mem_walks_nonneg.
 Qed.
 
 Theorem load_all_loaded_inv : forall f, loaded_inv (fst (load_all f)).
 Proof.
-  intros f. apply mem_ok_loaded_inv; [apply load_all_ok|].
+  intros f. apply mem_ok_loaded_inv; [apply load_all_ok| |apply load_all_walks_nonneg].
   unfold trips_in_order. apply Forall_forall. intros t Hin. exact (load_all_times_in_order f t Hin).
 Qed.
 
@@ -220,18 +237,20 @@ Proof.
   - exact I.
   - constructor.
   - unfold tables_ok. repeat split; constructor.
+  - split; constructor.
 Qed.
 
 Lemma reload_kind_loaded_inv : forall f k m, loaded_inv m -> loaded_inv (reload_kind f k m).
 Proof.
-  intros f k m [H1 H2 H3]. destruct k; unfold reload_kind; try (constructor; assumption).
+  intros f k m [H1 H2 H3 H4]. destruct k; unfold reload_kind; try (constructor; assumption).
   - rewrite fst_reload_agencies. constructor; assumption.
   - rewrite fst_reload_services. constructor; assumption.
   - rewrite fst_reload_nodes.
     pose proof (load_nodes2_ok (f_nodes f) (Loader2.f_stop f)) as Hn.
     assert (Hn' : tables_ok (C_ids f) (snd (fst (C_nd f))) (snd (C_nd f))).
     { unfold C_ids, C_nd. destruct (load_nodes2 (f_nodes f) (Loader2.f_stop f)) as [[[ids fp] rfp] r]. exact (proj2 Hn). }
-    constructor; [exact H1|exact H2|exact Hn'].
+    constructor; [exact H1|exact H2|exact Hn'|].
+    pose proof (full_mem_walks_nonneg f) as Hw. unfold full_mem in Hw. cbn [mm_fp mm_rfp] in Hw. exact Hw.
   - rewrite fst_reload_lines. constructor; assumption.
   - rewrite fst_reload_paths. constructor; assumption.
   - rewrite fst_reload_scenarios. constructor; assumption.
@@ -239,6 +258,7 @@ Proof.
     + cbn [mm_trips]. apply trips_map_sorted.
     + unfold trips_in_order. cbn [mm_trips]. apply trips_map_in_order.
     + exact H3.
+    + exact H4.
 Qed.
 
 Lemma update_one_loaded_inv : forall f s k, loaded_inv (sv_mem s) -> loaded_inv (sv_mem (update_one f s k)).
@@ -278,7 +298,7 @@ Proof. intros f0 l. apply refreshes_loaded_inv. cbn [sv_mem]. apply load_all_loa
 (* what Termination.v asks of the dataset, from the invariant *)
 Theorem loaded_times_monotone : forall m, loaded_inv m -> times_monotone (data_of m).
 Proof.
-  intros m [H1 H2 _]. apply times_in_order_monotone.
+  intros m [H1 H2 _ _]. apply times_in_order_monotone.
   - unfold data_of. cbn [d_trips]. apply ssorted_nodup. exact H1.
   - unfold data_of. cbn [d_trips]. unfold trips_in_order in H2. rewrite Forall_forall in H2. exact H2.
 Qed.
@@ -291,7 +311,7 @@ Qed.
 
 Theorem loaded_rfp_nodes_known : forall m, loaded_inv m -> rfp_nodes_known (data_of m).
 Proof.
-  intros m [_ _ H3] c r _ Hr.
+  intros m [_ _ H3 _] c r _ Hr.
   destruct (rfp_of_in (data_of m) (c_from c) r Hr) as (rows & Ha & Hin).
   unfold data_of in Ha. cbn [d_rfp] in Ha. unfold data_of. cbn [d_nodes].
   destruct H3 as [_ [_ [_ Hrfp]]].
@@ -309,36 +329,62 @@ Proof.
   apply assoc_in in Ha. destruct Ha as [k Hk]. exact (H k rows r Hk Hin).
 Qed.
 
+(* D15: every row of the forward and of the reverse footpath table of a loaded state has 0 <= fp_time *)
+Theorem loaded_footpath_times_nonneg : forall m, loaded_inv m ->
+  (forall n rows r, In (n, rows) (d_fp (data_of m)) -> In r rows -> 0 <= fp_time r) /\ rfp_times_nonneg (data_of m).
+Proof.
+  intros m [_ _ _ [Hfp Hrfp]]. unfold rfp_times_nonneg, data_of. cbn [d_fp d_rfp].
+  unfold table_nonneg, rows_nonneg in Hfp, Hrfp. rewrite Forall_forall in Hfp, Hrfp.
+  split; intros n rows r Hin Hr.
+  - specialize (Hfp (n, rows) Hin). cbn [snd] in Hfp. rewrite Forall_forall in Hfp. exact (Hfp r Hr).
+  - specialize (Hrfp (n, rows) Hin). cbn [snd] in Hrfp. rewrite Forall_forall in Hrfp. exact (Hrfp r Hr).
+Qed.
+
+Theorem loaded_walks_nonneg : forall m, loaded_inv m -> walks_nonneg (data_of m).
+Proof. intros m Hinv. apply rfp_times_nonneg_walks. exact (proj2 (loaded_footpath_times_nonneg m Hinv)). Qed.
+
+Corollary load_all_footpath_times_nonneg : forall f,
+  let d := data_of (fst (load_all f)) in
+  (forall n r, In r (fp_of d n) -> 0 <= fp_time r) /\ (forall n r, In r (rfp_of d n) -> 0 <= fp_time r).
+Proof.
+  intros f d. destruct (loaded_footpath_times_nonneg _ (load_all_loaded_inv f)) as [Hfp Hrfp]. fold d in Hfp, Hrfp.
+  split; intros n r Hr.
+  - unfold fp_of in Hr. destruct (assoc n (d_fp d)) as [rows|] eqn:Ha; [|destruct Hr].
+    apply assoc_in in Ha. destruct Ha as [k Hk]. exact (Hfp k rows r Hk Hr).
+  - destruct (rfp_of_in d n r Hr) as (rows & Ha & Hin).
+    apply assoc_in in Ha. destruct Ha as [k Hk]. exact (Hrfp k rows r Hk Hin).
+Qed.
+
 (* ---------------------------------------------------------------------------------------------- *)
 (* 4. the rebuild loop on a loaded state                                                            *)
 
 (* Whatever files were loaded and refreshed (loaded_inv), the rebuild loop of a single-route calculation ends within
-   its fuel provided the reverse walking times the scan reads are >= 0 and the request's minimum waiting time is *)
+   its fuel; the only thing asked of the request is a minimum waiting time >= 0 *)
 Theorem loaded_rebuild_terminates : forall m s p acc egr k st node start,
-  loaded_inv m -> walks_nonneg (data_of m) -> 0 <= q_minw p -> rev_pre (data_of m) s p acc egr k ->
+  loaded_inv m -> 0 <= q_minw p -> rev_pre (data_of m) s p acc egr k ->
   rev_scan (data_of m) p k false = Ok st ->
   r_acc st node = Some start ->
   exists legs last, rebuild (REBUILD_FUEL (data_of m)) (r_steps st) start [] None = Some (legs, last).
 Proof.
-  intros m s p acc egr k st node start Hinv Hwalk Hminw Hpre Hscan Hstart.
-  exact (rebuild_terminates_mono (data_of m) s p acc egr k st node start (loaded_times_monotone m Hinv) Hwalk
-           (loaded_rfp_nodes_known m Hinv) Hminw Hpre Hscan Hstart).
+  intros m s p acc egr k st node start Hinv Hminw Hpre Hscan Hstart.
+  exact (rebuild_terminates_mono (data_of m) s p acc egr k st node start (loaded_times_monotone m Hinv)
+           (loaded_walks_nonneg m Hinv) (loaded_rfp_nodes_known m Hinv) Hminw Hpre Hscan Hstart).
 Qed.
 
 Theorem loaded_rebuild_terminates_allnodes : forall m s p acc egr k st node start,
-  loaded_inv m -> walks_nonneg (data_of m) -> 0 <= q_minw p -> rev_pre (data_of m) s p acc egr k ->
+  loaded_inv m -> 0 <= q_minw p -> rev_pre (data_of m) s p acc egr k ->
   rev_scan (data_of m) p k true = Ok st ->
   r_acc st node = Some start ->
   exists legs last, rebuild (REBUILD_FUEL (data_of m)) (r_steps st) start [] None = Some (legs, last).
 Proof.
-  intros m s p acc egr k st node start Hinv Hwalk Hminw Hpre Hscan Hstart.
-  exact (rebuild_terminates_allnodes_mono (data_of m) s p acc egr k st node start (loaded_times_monotone m Hinv) Hwalk
-           (loaded_rfp_nodes_known m Hinv) Hminw Hpre Hscan Hstart).
+  intros m s p acc egr k st node start Hinv Hminw Hpre Hscan Hstart.
+  exact (rebuild_terminates_allnodes_mono (data_of m) s p acc egr k st node start (loaded_times_monotone m Hinv)
+           (loaded_walks_nonneg m Hinv) (loaded_rfp_nodes_known m Hinv) Hminw Hpre Hscan Hstart).
 Qed.
 
 (* so on a loaded state the reverse calculation can answer Hang only through the fuel of optimizeJourney *)
 Corollary loaded_calc_reverse_hang_only_optimize : forall m s p acc egr k,
-  loaded_inv m -> walks_nonneg (data_of m) -> 0 <= q_minw p -> rev_pre (data_of m) s p acc egr k ->
+  loaded_inv m -> 0 <= q_minw p -> rev_pre (data_of m) s p acc egr k ->
   calc_reverse (data_of m) p k = Hang ->
   exists st bestdep node start legs ln ar er,
     rev_scan (data_of m) p k false = Ok st /\ best_access p k st = Some (bestdep, node) /\
@@ -347,24 +393,49 @@ Corollary loaded_calc_reverse_hang_only_optimize : forall m s p acc egr k,
     row_of node (k_accfp k) = Some ar /\ row_of ln (k_egrfp k) = Some er /\
     optimize (OPT_FUEL (data_of m)) (data_of m) (walk_step ar :: legs ++ [walk_step er]) [] [] = OptHang.
 Proof.
-  intros m s p acc egr k Hinv Hwalk Hminw Hpre H.
-  exact (calc_reverse_hang_only_optimize_mono (data_of m) s p acc egr k (loaded_times_monotone m Hinv) Hwalk
-           (loaded_rfp_nodes_known m Hinv) Hminw Hpre H).
+  intros m s p acc egr k Hinv Hminw Hpre H.
+  exact (calc_reverse_hang_only_optimize_mono (data_of m) s p acc egr k (loaded_times_monotone m Hinv)
+           (loaded_walks_nonneg m Hinv) (loaded_rfp_nodes_known m Hinv) Hminw Hpre H).
+Qed.
+
+Corollary loaded_rev_allnodes_loop_hang_only_optimize : forall m s p acc egr k st,
+  loaded_inv m -> 0 <= q_minw p -> rev_pre (data_of m) s p acc egr k ->
+  rev_scan (data_of m) p k true = Ok st ->
+  forall nodes, rev_allnodes_loop (data_of m) p k st nodes = Hang ->
+  exists n start legs ln er,
+    In n nodes /\ r_acc st n = Some start /\
+    rebuild (REBUILD_FUEL (data_of m)) (r_steps st) start [] None = Some (legs, Some ln) /\
+    row_of ln (k_egrfp k) = Some er /\
+    optimize (OPT_FUEL (data_of m)) (data_of m) (legs ++ [walk_step er]) [] [] = OptHang.
+Proof.
+  intros m s p acc egr k st Hinv Hminw Hpre Hscan.
+  exact (rev_allnodes_loop_hang_only_optimize_mono (data_of m) s p acc egr k st (loaded_times_monotone m Hinv)
+           (loaded_walks_nonneg m Hinv) (loaded_rfp_nodes_known m Hinv) Hminw Hpre Hscan).
 Qed.
 
 (* the server of Loader2: started on ANY files, refreshed any number of times with ANY files *)
 Corollary server_rebuild_terminates : forall f0 l s p acc egr k st node start,
   let d := data_of (sv_mem (refreshes l {| sv_mem := fst (load_all f0); sv_dangling := [] |})) in
-  walks_nonneg d -> 0 <= q_minw p -> rev_pre d s p acc egr k ->
+  0 <= q_minw p -> rev_pre d s p acc egr k ->
   rev_scan d p k false = Ok st -> r_acc st node = Some start ->
   exists legs last, rebuild (REBUILD_FUEL d) (r_steps st) start [] None = Some (legs, last).
 Proof.
-  intros f0 l s p acc egr k st node start d Hwalk Hminw Hpre Hscan Hstart.
-  exact (loaded_rebuild_terminates _ s p acc egr k st node start (server_loaded_inv f0 l) Hwalk Hminw Hpre Hscan Hstart).
+  intros f0 l s p acc egr k st node start d Hminw Hpre Hscan Hstart.
+  exact (loaded_rebuild_terminates _ s p acc egr k st node start (server_loaded_inv f0 l) Hminw Hpre Hscan Hstart).
+Qed.
+
+Corollary server_rebuild_terminates_allnodes : forall f0 l s p acc egr k st node start,
+  let d := data_of (sv_mem (refreshes l {| sv_mem := fst (load_all f0); sv_dangling := [] |})) in
+  0 <= q_minw p -> rev_pre d s p acc egr k ->
+  rev_scan d p k true = Ok st -> r_acc st node = Some start ->
+  exists legs last, rebuild (REBUILD_FUEL d) (r_steps st) start [] None = Some (legs, last).
+Proof.
+  intros f0 l s p acc egr k st node start d Hminw Hpre Hscan Hstart.
+  exact (loaded_rebuild_terminates_allnodes _ s p acc egr k st node start (server_loaded_inv f0 l) Hminw Hpre Hscan Hstart).
 Qed.
 
 (* ---------------------------------------------------------------------------------------------- *)
-(* 5. the hypothesis walks_nonneg cannot be dropped: a negative walking time in ONE stop file        *)
+(* 5. regression for D15: a negative walking time in ONE stop file                                   *)
 
 (* stops 1, 2, 3.  trip 1: 1 -> 2 [dep 100, arr 110]; trip 2: 2 -> 1 [90, 95]; trip 3: 2 -> 3 [50, 210];
    trip 4: 1 -> 3 [95, 200].  Arrival query at 300 from stop 1 (10 s walk) to stop 3 (10 s walk), minimum waiting 0. *)
@@ -408,32 +479,51 @@ Example w_healthy :
   end.
 Proof. vm_compute. repeat split; reflexivity. Qed.
 
-(* the corrupted file loads without any error (status READY, no read error), every trip passes the stop-time check,
-   every row names a loaded stop; the only difference is the row (2, -200) in the footpath tables of stop 2 *)
+(* the corrupted file loads without any error (status READY, no read error) and every trip passes the stop-time check;
+   the row (2, -200) is skipped: stop 2 has no forward row left and only the self row the loader appends in its reverse list *)
 Example w_loads :
   snd (load_all w_files) = ST_READY /\ snd (load_steps w_files) = false /\
   map t_id (d_trips w_loaded) = [1; 2; 3; 4]%nat /\
-  rfp_of w_loaded 2 = [row 2 (-200) 0; row 2 0 0] /\ rfp_of w_loaded 1 = [row 1 0 0; row 1 0 0].
+  fp_of w_loaded 2 = [] /\ rfp_of w_loaded 2 = [row 2 0 0] /\ rfp_of w_loaded 1 = [row 1 0 0; row 1 0 0].
 Proof. vm_compute. repeat split; reflexivity. Qed.
 
-(* ... and the same request never gets an answer: trip 3 labels stop 2 with 50 + 200 = 250, trip 1 (arriving at stop 2
-   at 110 <= 250) labels stop 1 with 100, trip 2 (arriving at stop 1 at 95 <= 100) relabels stop 2 with 90 + 200 = 290 > 250.
-   The labels now read 1 -(trip 1)-> 2 -(trip 2)-> 1: the rebuild loop runs out of any fuel (the C++ loop
-   reverse_journey.cpp:48-58 never ends) *)
-Example w_hangs : route_answer w_loaded scen_all w_params w_acc w_egr = Hang.
+(* ... and the request that was never answered before the repair gets the answer of the healthy files *)
+Example w_answered :
+  route_answer w_loaded scen_all w_params w_acc w_egr
+  = route_answer (data_of (fst (load_all (encode_all w_data)))) scen_all w_params w_acc w_egr /\
+  match route_answer w_loaded scen_all w_params w_acc w_egr with
+  | Ok (r, _) => rt_dep r = 85 /\ rt_arr r = 210 /\ rt_nboard r = 1
+  | _ => False
+  end.
+Proof. vm_compute. repeat split; reflexivity. Qed.
+
+(* What the loader produced BEFORE the repair (the row kept in both tables of stop 2), written down as a dataset: on it
+   the same request hangs.  Trip 3 labels stop 2 with 50 + 200 = 250, trip 1 (arriving at stop 2 at 110 <= 250) labels
+   stop 1 with 100, trip 2 (arriving at stop 1 at 95 <= 100) relabels stop 2 with 90 + 200 = 290 > 250.  The labels read
+   1 -(trip 1)-> 2 -(trip 2)-> 1: the rebuild loop runs out of any fuel (the C++ loop reverse_journey.cpp:48-58 never
+   ends; confirmed on the real server).  So walks_nonneg cannot be dropped from Termination.rebuild_terminates_mono; the
+   repaired loader is what establishes it. *)
+Definition w_unrepaired : data :=
+  {| d_nodes := d_nodes w_loaded;
+     d_fp := [(1%nat, [row 1 0 0]); (2%nat, [row 2 (-200) 0]); (3%nat, [row 3 0 0])];
+     d_rfp := [(1%nat, [row 1 0 0; row 1 0 0]); (2%nat, [row 2 (-200) 0; row 2 0 0]); (3%nat, [row 3 0 0; row 3 0 0])];
+     d_lines := d_lines w_loaded; d_paths := d_paths w_loaded; d_trips := d_trips w_loaded;
+     d_scenarios := d_scenarios w_loaded |}.
+
+Example w_unrepaired_hangs : route_answer w_unrepaired scen_all w_params w_acc w_egr = Hang.
 Proof. vm_compute. reflexivity. Qed.
 
 Definition w_k : calc :=
-  let k := mk_calc w_loaded w_params (conn_set w_loaded scen_all) w_acc w_egr true true in
+  let k := mk_calc w_unrepaired w_params (conn_set w_unrepaired scen_all) w_acc w_egr true true in
   with_rev k (k_arr k) (-1) (k_taur k) (set_usable (k_ov k)).
 
-Example w_labels :
-  match rev_scan w_loaded w_params w_k false with
+Example w_unrepaired_labels :
+  match rev_scan w_unrepaired w_params w_k false with
   | Ok s => map (fun n => (r_taur s n, option_map c_trip (js_enter (r_steps s n)),
                            option_map c_to (js_exit (r_steps s n)))) [1; 2; 3]%nat
             = [(100, Some 1%nat, Some 2%nat); (290, Some 2%nat, Some 1%nat); (290, None, None)] /\
             match r_acc s 1%nat with
-            | Some start => rebuild (REBUILD_FUEL w_loaded) (r_steps s) start [] None = None /\
+            | Some start => rebuild (REBUILD_FUEL w_unrepaired) (r_steps s) start [] None = None /\
                             rebuild 1000 (r_steps s) start [] None = None
             | None => False
             end
@@ -441,19 +531,21 @@ Example w_labels :
   end.
 Proof. vm_compute. repeat split; reflexivity. Qed.
 
-(* every hypothesis of loaded_rebuild_terminates but walks_nonneg holds for this state *)
-Example w_only_walks_fail :
-  loaded_inv (fst (load_all w_files)) /\ 0 <= q_minw w_params /\ ~ walks_nonneg w_loaded.
+Example w_unrepaired_walks_fail : 0 <= q_minw w_params /\ ~ walks_nonneg w_unrepaired.
 Proof.
-  split; [apply load_all_loaded_inv|]. split; [vm_compute; discriminate|].
+  split; [vm_compute; discriminate|].
   intros H.
   assert (Hc : In {| c_trip := 3; c_seq := 1; c_from := 2; c_to := 3; c_dep := 50; c_arr := 210;
-                     c_cb := true; c_cu := true; c_minw := -1 |} (all_conns w_loaded)).
+                     c_cb := true; c_cu := true; c_minw := -1 |} (all_conns w_unrepaired)).
   { vm_compute. right. right. left. reflexivity. }
-  assert (Hr : In (row 2 (-200) 0) (rfp_of w_loaded 2)).
+  assert (Hr : In (row 2 (-200) 0) (rfp_of w_unrepaired 2)).
   { vm_compute. left. reflexivity. }
   pose proof (H _ _ Hc Hr) as Hneg. cbn [fp_time row] in Hneg. lia.
 Qed.
+
+(* the loaded state satisfies the invariant, so every request on it leaves the rebuild loop *)
+Example w_loaded_inv : loaded_inv (fst (load_all w_files)) /\ walks_nonneg w_loaded.
+Proof. split; [apply load_all_loaded_inv|apply loaded_walks_nonneg; apply load_all_loaded_inv]. Qed.
 
 Print Assumptions mk_conns_in_order.
 Print Assumptions loaded_trip_conns_in_order.
@@ -466,26 +558,23 @@ Print Assumptions update_loaded_inv.
 Print Assumptions server_loaded_inv.
 Print Assumptions loaded_times_monotone.
 Print Assumptions loaded_rfp_nodes_known.
+Print Assumptions load_all_walks_nonneg.
+Print Assumptions loaded_footpath_times_nonneg.
+Print Assumptions load_all_footpath_times_nonneg.
+Print Assumptions loaded_walks_nonneg.
 Print Assumptions loaded_rebuild_terminates.
 Print Assumptions loaded_rebuild_terminates_allnodes.
 Print Assumptions loaded_calc_reverse_hang_only_optimize.
+Print Assumptions loaded_rev_allnodes_loop_hang_only_optimize.
 Print Assumptions server_rebuild_terminates.
+Print Assumptions server_rebuild_terminates_allnodes.
 Print Assumptions w_healthy.
 Print Assumptions w_loads.
-Print Assumptions w_hangs.
-Print Assumptions w_labels.
-Print Assumptions w_only_walks_fail.
+Print Assumptions w_answered.
+Print Assumptions w_unrepaired_hangs.
+Print Assumptions w_unrepaired_labels.
+Print Assumptions w_unrepaired_walks_fail.
+Print Assumptions w_loaded_inv.
 
-(* OPEN (for "a server that loaded arbitrary files never answers Hang"):
-   1. walks_nonneg is NOT guaranteed by the loaders: nodes_cache_fetcher.cpp:154-162 (Loader.node_rows / Loader2.node_rows_p)
-      copies the Int16 travel time of the stop file unchecked, and w_hangs shows that one negative value makes
-      the reverse labels cyclic and the request hang in rebuild.  Repair in the style of D13: skip (or clamp) rows with
-      travelTime < 0 when the stop file is read; then walks_nonneg (data_of m) joins loaded_inv and the hypothesis of
-      loaded_rebuild_terminates / server_rebuild_terminates disappears.  (The access / egress rows of the walking router,
-      k_accfp / k_egrfp, are not part of the label chain and play no role in rebuild.)
-   2. optimize (OPT_FUEL): OptTotal.optimize_total is proved from journey_ok_b, which RevInv/Rewrites derive under
-      wf_data_b d; not redone under the loaded invariant.
-   3. count_transfers_fwd (forward accessibility, Calc.v:97) follows the forward labels c_from-wards with REBUILD_FUEL;
-      its termination (FwdOpt.F_count_terminates) is proved under wf_data_b d, pos_hops_b d and well-formed tables, by a
-      strictly decreasing f_tau along the chain; not redone under the loaded invariant (the forward scan labels with
-      d_fp rows: a negative FORWARD walking time is the same threat there). *)
+(* OPEN (for "a server that loaded arbitrary files never answers Hang"): see Proofs/LoadedLoops.v for the two remaining
+   fuel-bounded loops, optimize (OPT_FUEL) and count_transfers_fwd. *)
